@@ -148,7 +148,8 @@ def partial_gr_bounds(frames, H, ppp, types, width, nbin, band):
     """Reference intervals for the total and every partial pair correlation function.
 
     frames: list of (N, d) position arrays.  H: one cell matrix, or a list with one matrix per frame (sheared
-    trajectories: frame k is reduced with its own cell; the volume must be the same in all frames).  Returns dict with
+    trajectories: frame k is reduced with its own cell; the volume must be the same in all frames).  types: one label
+    array, or a list with one label array per frame (same composition).  Returns dict with
       'lo', 'hi'   : {key: array(nbin)}  key = 'gr' or (a, b) with a <= b (type ids)
       'cnt_lo/hi'  : unordered pair counts summed over frames, same keys
       'ambiguous'  : number of ambiguous pairs, 'ties': number of tied pairs
@@ -158,7 +159,19 @@ def partial_gr_bounds(frames, H, ppp, types, width, nbin, band):
     if len(Hs) != T:
         raise ValueError("one cell matrix per frame expected")
     d = Hs[0].shape[0]
-    types = np.asarray(types)
+    # species labels: one array (the same labels in every frame) or one array per frame (swap Monte Carlo,
+    # `fix atom/swap`): species a of frame k are the particles labelled a IN FRAME k; the counts N_a are a property of
+    # the trajectory, so the composition must be the same in all frames
+    if isinstance(types, (list, tuple)) or (isinstance(types, np.ndarray) and types.ndim == 2):
+        labels = [np.asarray(t).astype(np.int64) for t in types]
+        if len(labels) != T:
+            raise ValueError(f"{len(labels)} label arrays for {T} frames")
+        for t in labels[1:]:
+            if t.shape != labels[0].shape or not np.array_equal(np.sort(t), np.sort(labels[0])):
+                raise ValueError("composition differs between frames")
+    else:
+        labels = [np.asarray(types).astype(np.int64)] * T
+    types = labels[0]
     N = len(types)
     V = geom.volume(Hs[0])
     if any(abs(geom.volume(h) - V) > 1e-12 * V for h in Hs):
@@ -169,12 +182,12 @@ def partial_gr_bounds(frames, H, ppp, types, width, nbin, band):
     cnt_lo = {k: np.zeros(nbin) for k in keys}
     cnt_hi = {k: np.zeros(nbin) for k in keys}
     namb = nties = 0
-    for pos, Hk in zip(frames, Hs):
+    for pos, Hk, lab in zip(frames, Hs, labels):
         ii, jj, C, definite, nt = pair_outcomes(pos, Hk, ppp, width, nbin, band)
         nties += nt
         namb += int((~definite).sum())
-        ta = np.minimum(types[ii], types[jj])
-        tb = np.maximum(types[ii], types[jj])
+        ta = np.minimum(lab[ii], lab[jj])
+        tb = np.maximum(lab[ii], lab[jj])
         ones = np.ones(len(ii))
         lo, hi = weighted_bounds(C, definite, ones)
         cnt_lo["gr"] += lo
